@@ -60,8 +60,8 @@ void run(const Scn &sc)
   TransportConfig cfg;
   std::shared_ptr<Transport> t = test::TransportEngineInjector::withEngine(std::move(engU), cfg);
   std::vector<SessionId> globalConnect, globalClose;
-  t->onConnect([&](SessionId s, const TransportAddress &) { globalConnect.push_back(s); mc_obs("global onConnect %llu", (unsigned long long)s); });
-  t->onClose([&](SessionId s, const TransportErrorInfo &) { globalClose.push_back(s); mc_obs("global onClose %llu", (unsigned long long)s); });
+  t->onConnect([&](SessionId s, const TransportAddress &) { mc_yield_point("cb"); globalConnect.push_back(s); mc_obs("global onConnect %llu", (unsigned long long)s); });
+  t->onClose([&](SessionId s, const TransportErrorInfo &) { mc_yield_point("cb"); globalClose.push_back(s); mc_obs("global onClose %llu", (unsigned long long)s); });
   t->start();
   // observation copies (the engine object dies with the transport in teardown==2)
   std::map<SessionId, int> onConnectDelivered, closeIssued, finalState;
